@@ -173,6 +173,11 @@ def gen_datasets(rng, same_shape=False, max_ex=7, max_feat=8):
     k = rng.randint(1, 3)
     out = []
     ne0, nf0 = rng.randint(2, max_ex), rng.randint(2, max_feat)
+    # "the same survey re-recorded": equal shapes, but first as raw integer counts, later standardised (floats with fractions)
+    switch = rng.random() < 0.25
+    if switch:
+        k = max(k, 2)
+        same_shape = True
     for i in range(k):
         if same_shape or i == 0:
             ne, nf = ne0, nf0
@@ -183,7 +188,9 @@ def gen_datasets(rng, same_shape=False, max_ex=7, max_feat=8):
         X = np.array([[rng.randint(-6, 6) for _ in range(nf)] for _ in range(ne)], dtype=float)
         # storage type of the data set: counts / raw pixels are integers, standardised data are floats with fractions
         dt = rng.choice(["float64", "float64", "float64", "int64", "int32", "float32"])
-        if dt.startswith("float") and rng.random() < 0.5:
+        if switch:
+            dt = rng.choice(["int64", "int32", "float32"]) if i == 0 else "float64"
+        if dt.startswith("float") and (switch or rng.random() < 0.5):
             X = X + np.array([[rng.randint(-3, 3) / 4 for _ in range(nf)] for _ in range(ne)])
         out.append(X.astype(dt))
     return out
